@@ -6,6 +6,7 @@ import (
 	"encoding/json"
 	"fmt"
 	"os"
+	"strings"
 
 	"github.com/synnaxlabs/cesium"
 	xfs "github.com/synnaxlabs/x/io/fs"
@@ -15,7 +16,58 @@ import (
 
 var extra func(e *cskit.Exec, m cskit.Mismatch)
 
+func minimize(path string) {
+	b, _ := os.ReadFile(path)
+	var rs struct {
+		Signature string `json:"signature"`
+		Witness   struct {
+			Script *cskit.Script `json:"script"`
+		} `json:"witness"`
+	}
+	if err := json.Unmarshal(b, &rs); err != nil {
+		panic(err)
+	}
+	prefix := rs.Signature[:3]
+	o := cskit.RunOpts{CheckGC: prefix == "c04", FinalReads: 10, FinalSeed: 12345, Prefix: prefix}
+	want := rs.Signature
+	if len(os.Args) > 3 {
+		want = os.Args[3]
+	}
+	pred := func(s *cskit.Script) bool {
+		_, fs := cskit.RunScript(s, o)
+		for _, f := range fs {
+			if strings.HasPrefix(f.Sig, want) {
+				return true
+			}
+		}
+		return false
+	}
+	if !pred(rs.Witness.Script) {
+		fmt.Println("witness does not reproduce signature prefix", want)
+		_, fs := cskit.RunScript(rs.Witness.Script, o)
+		for _, f := range fs {
+			fmt.Println("  got:", f.Sig)
+		}
+		return
+	}
+	m := cskit.Minimize(rs.Witness.Script, pred)
+	out, _ := json.Marshal(m)
+	fmt.Println(string(out))
+	_, fs := cskit.RunScript(m, o)
+	seen := map[string]bool{}
+	for _, f := range fs {
+		if !seen[f.Sig] {
+			seen[f.Sig] = true
+			fmt.Println("FINDING", f.Sig, "::", f.What)
+		}
+	}
+}
+
 func main() {
+	if os.Args[1] == "-min" {
+		minimize(os.Args[2])
+		return
+	}
 	b, _ := os.ReadFile(os.Args[1])
 	var rs struct {
 		Witness struct {
